@@ -30,6 +30,12 @@ def strategy_(draw):
         if draw(st.integers(0, 3)) > 0:
             spec['query']['enc'] = draw(st.sampled_from(['csr', 'csc']))
     rel = draw(st.sampled_from(['permute', 'subset', 'superset', 'duplicate', 'rechunk']))
+    if draw(st.integers(0, 2)) == 0:
+        # input declared as already normalised, cells of very different overall magnitude
+        spec['cfg']['normalization'] = 'log2CPM'
+        spec['query']['kind'] = 'float'
+        spec['query']['dtype'] = draw(st.sampled_from(['float32', 'float64']))
+        spec['query']['row_scale'] = draw(st.lists(st.sampled_from([1.0, 1.0, 1e-9, 1e-5, 1e4, 0.37]), min_size=n, max_size=n))
     t = {'rel': rel}
     if rel == 'permute':
         t['perm'] = list(draw(st.permutations(list(range(n)))))
@@ -144,6 +150,8 @@ def check(spec):
     classes = ['rel_' + t['rel']]
     if spec['query'].get('zero_rows') and spec['query']['enc'] != 'dense':
         classes.append('sparse_query_with_empty_row')
+    if spec['cfg'].get('normalization') == 'log2CPM':
+        classes.append('declared_normalised_mixed_magnitudes')
     if skip:
         classes.append('near_tie_cells_skipped')
     return Case(moved and compared > 0, classes, info={'cells_compared': compared, 'near_tie_skipped': len(skip)})
